@@ -97,6 +97,7 @@ type hist struct {
 	lastNode        string // the node's verdict on the last delivered block
 	pendingFindings []finding
 	lastSub         *genTx // the tx being / last submitted
+	subbed          map[Hash]*genTx // every transaction ever submitted (the pool may have rejected or replaced it since)
 
 	cm struct { // the call into the code under test that is in progress (read by the watchdog goroutine)
 		sync.Mutex
@@ -466,6 +467,12 @@ func (h *hist) submit(x *genTx, path string) int {
 		path = "net"
 	}
 	h.lastSub = x
+	if h.subbed == nil {
+		h.subbed = map[Hash]*genTx{}
+	}
+	if len(h.subbed) < 20000 {
+		h.subbed[x.id] = x
+	}
 	h.enter("submit " + path + " " + x.family)
 	defer h.leave()
 	res := -1
